@@ -130,19 +130,20 @@ theorem encPure_inv {c : Cfg} (hc : RValid c) {e : Encoder} (hI : Inv c e) {cum 
 
 /-- **(a)** `encode_symbol` on a state satisfying the invariant, with a legal `(cum, p)`:
     no fault (`scale·p ≠ 0`, no overflow, `first + 1` fits) and the invariant is preserved. -/
-theorem encodeCP_ok {c : Cfg} (hc : RValid c) {e : Encoder} (hI : Inv c e) {cum p : Nat}
-    (hp : 0 < p) (hcp : cum + p ≤ 2^c.P) :
+theorem encodeCP_ok {c : Cfg} (hc : RValid c) {e : Encoder} (hI : Inv c e) (hf : Fits c e 1)
+    {cum p : Nat} (hp : 0 < p) (hcp : cum + p ≤ 2^c.P) :
     ∃ e', encodeCP c e cum p = .ok e' ∧ Inv c e' :=
-  ⟨_, encodeCP_eq_pure hc hI hp hcp, encPure_inv hc hI hp hcp⟩
+  ⟨_, encodeCP_eq_pure hc hI hf hp hcp, encPure_inv hc hI hp hcp⟩
 
 /-- the same through the model lookup -/
 theorem encode_ok {Sym : Type} {c : Cfg} (hc : RValid c) {m : Model Sym} (hm : m.WellFormed c.P)
-    {e : Encoder} (hI : Inv c e) {s : Sym} {cum p : Nat} (hs : m.enc s = some (cum, p)) :
+    {e : Encoder} (hI : Inv c e) (hf : Fits c e 1) {s : Sym} {cum p : Nat}
+    (hs : m.enc s = some (cum, p)) :
     ∃ e', encode c m s e = .ok e' ∧ Inv c e' := by
   obtain ⟨hp, hcp, _, _⟩ := hm.1 s cum p hs
   unfold encode
   rw [hs]
-  exact encodeCP_ok hc hI hp hcp
+  exact encodeCP_ok hc hI hf hp hcp
 
 /-- an impossible symbol is rejected and nothing else happens (the function is pure) -/
 theorem encode_impossible {Sym : Type} {c : Cfg} {m : Model Sym} {e : Encoder} {s : Sym}
